@@ -280,11 +280,11 @@ def completionContext (lower : String → String) (st : Index) (f : Path) (line0
   | some v =>
     let target := line0 + 1
     let lines := linesOf v.text.toList
-    let ast : Option Ctx :=
-      match v.parsed with
-      | some fr => (decoratorCtx target fr.body).orElse (fun _ => functionCtx lines target fr.body)
-      | none => none
-    ast.orElse (fun _ => ctxFromText lower v.text.toList target)
+    -- a document that parses is judged by its AST alone; the text heuristics are for documents
+    -- that do not parse (since the repair of the fallback-on-valid-document finding)
+    match v.parsed with
+    | some fr => (decoratorCtx target fr.body).orElse (fun _ => functionCtx lines target fr.body)
+    | none => ctxFromText lower v.text.toList target
 
 /-- `get_function_param_insertion_info`: first line within ten of the function line containing
     `"):"`; returns (line, byte column of `)`, needs_comma). -/
